@@ -75,7 +75,18 @@ pub fn check_uncompact(run: &mut Run, list: &[MCell], target: i32) {
                 }
                 if changed > 0 {
                     run.count("alias_spellings.lists");
-                    if let Ok(v2) = uncompact(&ids2, target) {
+                    let answer = uncompact(&ids2, target);
+                    if answer.is_err() && ids2.iter().all(|w| children(*w, Some(target)).is_ok()) {
+                        // rejecting a spelling is allowed, but not here: every element is accepted by cell_to_children for
+                        // this very target, which is what uncompact is defined through
+                        run.violation(
+                            "C09.alias_rejected",
+                            json!({"ids": ids_json(&ids2), "canonical_ids": ids_json(&ids), "target": target}),
+                            format!("uncompact fails ({:?}) on a list every element of which cell_to_children expands to {target}; {changed} elements are written in a non-canonical spelling", answer.as_ref().err()),
+                        );
+                        return;
+                    }
+                    if let Ok(v2) = answer {
                         run.count("alias_spellings.answered");
                         if v2 != v {
                             let at = v2.iter().zip(v.iter()).position(|(a, b)| a != b);
@@ -213,6 +224,17 @@ fn run(ctx: &Ctx) -> Run {
                 let set = gen::cell_set(&mut rng, "sized");
                 let r = set.first().map(|c| c.res).unwrap_or(1);
                 let up = if set.len() > 5000 { rng.below(2) as i32 } else { rng.below(3) as i32 };
+                let mut set = set;
+                if set.len() >= 64 && r >= 2 && rng.chance(0.5) {
+                    // a long list is rarely of one resolution: a few coarser cells among the run, so that position-keyed scratch
+                    // (a resolution table reused modulo a block size, a chunk that assumes one fan-out) meets two fan-outs
+                    for _ in 0..1 + rng.below(3) {
+                        let k = rng.usize(set.len());
+                        let coarser = r - 1 - rng.below(2) as i32;
+                        set[k] = gen::random_cell(&mut rng, coarser);
+                    }
+                    run.count("long_lists_with_coarser_cells_mixed_in");
+                }
                 (set, (r + up).min(MAX_RES))
             } else if rng.below(40) == 1 {
                 // neighbours in id order that are far apart in the tree (ends of quintants and faces)
